@@ -1,5 +1,6 @@
 (* C17 — Comments, layout and annotations are inert. *)
-From GX Require Import Base Expr Topo Ode Load LoadSound Perm Annot Parse Lex.
+From GX Require Import Base Expr Topo Ode Load LoadSound Perm Annot Parse Lex Line.
+From Coq Require Import Ascii.
 Open Scope string_scope.
 Open Scope list_scope.
 
@@ -56,4 +57,23 @@ Proof.
   split; [exact H|]. unfold parse_string. rewrite H. reflexivity.
 Qed.
 Print Assumptions C17_two_layouts_of_the_same_tokens_are_read_alike.
+
+(* comments at the character level: an assignment line is cut at its first "#"; for a code part without "#" the name and the
+   expression read (Line.parse_line = cut, Lex.lex, Parse.parse_expr) are those of the bare code, whatever the comment says *)
+Theorem C17_the_comment_of_an_assignment_line_is_inert :
+  forall codepart c, free_of hash codepart = true ->
+    parse_line (codepart ++ String "#"%char c)
+    = match parse_line codepart with Some (x, e, _) => Some (x, e, Some c) | None => None end.
+Proof. exact comment_is_inert. Qed.
+Print Assumptions C17_the_comment_of_an_assignment_line_is_inert.
+
+Theorem C17_two_comments_on_the_same_code_give_the_same_assignment :
+  forall codepart c1 c2, free_of hash codepart = true ->
+    match parse_line (codepart ++ String "#"%char c1), parse_line (codepart ++ String "#"%char c2) with
+    | Some (x1, e1, _), Some (x2, e2, _) => x1 = x2 /\ e1 = e2
+    | None, None => True
+    | _, _ => False
+    end.
+Proof. exact line_comment_text_is_irrelevant. Qed.
+Print Assumptions C17_two_comments_on_the_same_code_give_the_same_assignment.
 
